@@ -13,6 +13,10 @@
 //   IV/k/k2  Insert(k, <value stored under k2>)  both const-value overloads     IK/i/v  Insert(<key at slot i>, v)
 //   IKV/i/j  Insert(<key at slot i>, <value at slot j>)    GK/i  h[<key at slot i>]    RK/i  Remove(<key at slot i>)
 //   NK/i/to  Rename(<key at slot i>, to)                   NT/i/from  Rename(from, <key at slot i>)
+// Remaining overloads: RC/k Remove(<C string>)   GC/k h[<C string>]   (keys with an embedded NUL use pointer+length)
+// Keys given as pointers INTO the table's own key storage (the stored key of slot i, First()/Length()):
+//   PG/i Get(ptr,len)   PB/i h[<C string>]   PI/i/v Insert(ptr,len,v)   PR/i Remove(ptr,len)   PC/i Remove(<C string>)
+//   PL/i Has / GetKeyIndex / GetItem(ptr,len,hash) / GetValue(ptr,len[,hash])
 // Record = out#size cap heads#items, items = key/Hash/Next/value-id joined by ';'.
 // Bucket heads are read at Storage() - Capacity() (HashTable.hpp layout), no private access.
 #include "ledger.hpp" // first: with -DVERIF_LEDGER the library's Allocate/Deallocate are logged
@@ -178,6 +182,31 @@ struct Runner {
             return bad("iteration [" + a + "] expected [" + b + "]", step);
         }
         if (h.GetKey(h.Size()) != nullptr || h.GetItem(h.Size()) != nullptr) return bad("entry past Size()", step);
+        // API: HashTable::IsEmpty() const / IsNotEmpty() const / First() const / Last() const / End() const / begin() / end()
+        {
+            const Table &ch = h;
+            if (ch.IsEmpty() != (ch.Size() == 0) || ch.IsNotEmpty() == ch.IsEmpty()) return bad("IsEmpty/IsNotEmpty", step);
+            if (ch.First() != ch.Storage() || ch.End() != ch.First() + ch.Size()) return bad("First/End", step);
+            if (ch.Last() != (ch.Size() != 0 ? ch.Storage() + (ch.Size() - 1) : nullptr)) return bad("Last", step);
+            SizeT n1 = 0, n2 = 0;
+            for (const HItem &x : ch) { n1 += SizeT(&x == ch.First() + n1); }          // begin() const / end() const
+            for (HItem &x : h) { n2 += SizeT(&x == h.Storage() + n2); }                // begin() / end()
+            if (n1 != ch.Size() || n2 != ch.Size()) return bad("begin/end", step);
+            // API: HAItem_T / HLItem_T operator< > <= >= == on the stored records (the key order of IsLess)
+            for (SizeT i = 0; i + 1 < ch.Size(); ++i) {
+                const HItem      &a = ch.First()[i], &b = ch.First()[i + 1];
+                const std::string ka(a.Key.First(), a.Key.Length()), kb2(b.Key.First(), b.Key.Length());
+                const bool        lt = signed_less(ka, kb2), gt = signed_less(kb2, ka), eq = (ka == kb2);
+                if ((a < b) != lt || (a > b) != gt || (a == b) != eq || (a <= b) != (lt || eq) || (a >= b) != (gt || eq))
+                    return bad("item comparison operators", step);
+            }
+            // API: HAItem_T::Clear() / HLItem_T::Clear() on a copy of a stored record
+            if (ch.Size() != 0) {
+                HItem tmp(*(ch.Last()));
+                tmp.Clear();
+                if (tmp.Key.Length() != 0 || valId(&tmp) != 0) return bad("item Clear()", step);
+            }
+        }
         if (h.ActualSize() != ref.size()) return bad("ActualSize", step);
         if (h.Size() > h.Capacity()) return bad("Size > Capacity", step);
         for (const auto &k : universe) {
@@ -258,7 +287,9 @@ struct Runner {
         const char *kp = kb.p;
         const auto *pv = h.GetValue(kp, SizeT(kb.n));
         const auto *pk = h.GetValue(Key(kp, SizeT(kb.n)));
-        return pv == pk && ((it == nullptr) ? (pv == nullptr) : (pv == &(it->Value)));
+        // API: HArray::GetValue(const Char_T *key, const SizeT length, const SizeT hash) const
+        const auto *ph = h.GetValue(kp, SizeT(kb.n), StringUtils::Hash(kp, SizeT(kb.n)));
+        return pv == pk && pv == ph && ((it == nullptr) ? (pv == nullptr) : (pv == &(it->Value)));
     }
     template <bool B = HasValue>
     typename std::enable_if<!B, bool>::type valuePtrOk(const vh::ExactBuf<char> &, const HItem *) { return true; }
@@ -323,6 +354,39 @@ struct Runner {
     template <bool B = HasValue>
     typename std::enable_if<!B, std::string>::type aliasGet(const Key &) { return "u"; }
 
+    // operator[](const Char_T *) / Get(ptr, len) / GetValue with explicit or own-storage pointers
+    template <bool B = HasValue>
+    typename std::enable_if<B, std::string>::type getCstr(const char *kp, SizeT len, bool cstr, const std::string &ks) {
+        // API: HArray::operator[](const Char_T *key)
+        typename VT::T &v = cstr ? h[kp] : h.Get(kp, len);
+        if (refFind(ks) < 0) ref.emplace_back(ks, 0);
+        return "v" + std::to_string(VT::id(v));
+    }
+    template <bool B = HasValue>
+    typename std::enable_if<!B, std::string>::type getCstr(const char *, SizeT, bool, const std::string &) { return "u"; }
+    template <bool B = HasValue>
+    typename std::enable_if<B, std::string>::type getOwn(const char *kp, SizeT len, bool cstr) {
+        // the key pointer refers to the stored key's own characters; Get() may grow the table first
+        typename VT::T &v = cstr ? h[kp] : h.Get(kp, len); // API: HArray::Get(const Char_T *key, const SizeT length)  [own storage]
+        return "v" + std::to_string(VT::id(v));
+    }
+    template <bool B = HasValue>
+    typename std::enable_if<!B, std::string>::type getOwn(const char *, SizeT, bool) { return "u"; }
+    template <bool B = HasValue>
+    typename std::enable_if<B, bool>::type ownValueOk(const char *kp, SizeT len, const HItem *it) {
+        return h.GetValue(kp, len) == &(it->Value) && h.GetValue(kp, len, StringUtils::Hash(kp, len)) == &(it->Value); // [own storage]
+    }
+    template <bool B = HasValue>
+    typename std::enable_if<!B, bool>::type ownValueOk(const char *, SizeT, const HItem *) { return true; }
+    template <bool B = HasValue>
+    typename std::enable_if<B>::type insertOwn(const char *kp, SizeT len, uint64_t id) {
+        h.Insert(kp, len, VT::make(id)); // API: HArray::Insert(const Char_T *key, const SizeT length, Value_T &&value)  [own storage]
+    }
+    template <bool B = HasValue>
+    typename std::enable_if<!B>::type insertOwn(const char *kp, SizeT len, uint64_t) {
+        h.Insert(kp, len); // API: HList::Insert(const Char_T *key, const SizeT length)  [own storage]
+    }
+
     // returns the `out` field; "" = malformed op
     std::string apply(const std::string &op, size_t step) {
         auto                  f = vh::split(op, '/');
@@ -364,8 +428,10 @@ struct Runner {
             const bool   gi2 = h.GetKeyIndex(idx2, Key(kp, SizeT(kb.n)));
             const bool   has = h.Has(kp, SizeT(kb.n));
             const HItem *it  = h.GetItem(Key(kp, SizeT(kb.n)));
+            // API: HashTable::GetItem(const Char_T *key, const SizeT length, const SizeT hash) const
+            const HItem *ith = h.GetItem(kp, SizeT(kb.n), StringUtils::Hash(kp, SizeT(kb.n)));
             if (gi != has || gi != gi2 || idx != idx2 || has != (it != nullptr) || has != h.Has(Key(kp, SizeT(kb.n))) || !valuePtrOk(kb, it) ||
-                (it != nullptr && it != h.Storage() + idx))
+                ith != it || (it != nullptr && it != h.Storage() + idx))
                 return "INCONSISTENT-LOOKUPS";
             if (it == nullptr) return "n";
             return "f" + std::to_string(idx) + ":" + std::to_string(valId(it));
@@ -396,6 +462,57 @@ struct Runner {
                 return "u";
             }
             h.Expect(i);
+            return "u";
+        }
+        // ---- NUL-terminated key overloads (a key with an embedded NUL goes through pointer+length instead)
+        if ((c == "RC" || c == "GC") && f.size() == 2 && vh::parse_nats(f[1], u)) {
+            const std::string ks = key_bytes(u);
+            universe.insert(ks);
+            const bool cstr = (ks.find('\0') == std::string::npos);
+            std::vector<uint64_t> uz(u);
+            uz.push_back(0);
+            vh::ExactBuf<char> kz(uz); // exact-size, NUL-terminated
+            const char        *kp = kz.p;
+            if (c == "RC") {
+                if (cstr) h.Remove(kp); // API: HashTable::Remove(const Char_T *key) const
+                else h.Remove(kp, SizeT(ks.size()));
+                refErase(ks);
+                return "u";
+            }
+            return getCstr(kp, SizeT(ks.size()), cstr, ks);
+        }
+        // ---- the key given as a pointer INTO the table's own key storage (stored key at slot i)
+        if ((c == "PG" || c == "PR" || c == "PC" || c == "PL" || c == "PB") && f.size() == 2 && num(f[1], n) && n < 100000) {
+            const Key *k = h.GetKey(SizeT(n));
+            if (k == nullptr) return "u";
+            const std::string ks(k->First(), k->Length());
+            const char       *kp  = k->First(); // points into the block the stored key owns (NUL-terminated by copyString)
+            const SizeT       len = k->Length();
+            const bool        cstr = (ks.find('\0') == std::string::npos);
+            if (c == "PR" || c == "PC") {
+                if (c == "PC" && cstr) h.Remove(kp); // API: HashTable::Remove(const Char_T *key) const  [own storage]
+                else h.Remove(kp, len);              // API: HashTable::Remove(const Char_T *key, SizeT length) const  [own storage]
+                refErase(ks);
+                return "u";
+            }
+            if (c == "PL") {
+                SizeT        idx = 0xFFFFFFFFu;
+                const bool   gi  = h.GetKeyIndex(idx, kp, len);                       // [own storage]
+                const bool   has = h.Has(kp, len);                                    // [own storage]
+                const HItem *it  = h.GetItem(kp, len, StringUtils::Hash(kp, len));     // [own storage]
+                if (!gi || !has || it == nullptr || it != h.Storage() + idx || idx != SizeT(n) || !ownValueOk(kp, len, it)) return "INCONSISTENT-LOOKUPS";
+                return "f" + std::to_string(idx) + ":" + std::to_string(valId(it));
+            }
+            return (c == "PG") ? getOwn(kp, len, false) : getOwn(kp, len, cstr);
+        }
+        if (c == "PI" && f.size() == 3 && num(f[1], n) && n < 100000) {
+            uint64_t m = 0;
+            if (!num(f[2], m)) return "";
+            const Key *k = h.GetKey(SizeT(n));
+            if (k == nullptr) return "u";
+            const std::string ks(k->First(), k->Length());
+            insertOwn(k->First(), k->Length(), m);
+            refPut(ks, HasValue ? m : 0);
             return "u";
         }
         // ---- arguments that refer to an element of the SAME table (value semantics: the argument is
